@@ -209,6 +209,13 @@ func (c *FnCtx) evIdent(x *eIdent, env *evalEnv) *Val {
 	if v, ok := env.bound[x.name]; ok {
 		return v
 	}
+	if strings.HasPrefix(x.name, "result") && len(x.name) == 7 && x.name[6] >= '0' && x.name[6] <= '9' {
+		i := int(x.name[6] - '0')
+		if i < len(env.result) {
+			return env.result[i]
+		}
+		c.efail("%s not available here", x.name)
+	}
 	for i, n := range env.resNm {
 		if n == x.name && i < len(env.result) {
 			return env.result[i]
@@ -671,7 +678,7 @@ func (c *FnCtx) evCall(x *eCall, env *evalEnv) *Val {
 				c.efail("iter(%s): no range-index loop", exprText(x.args[0]))
 			}
 			return c.mk(intT, app("+", c.regs[target.rangeIx].S, "1"))
-		case "called":
+		case "called", "retof":
 			return c.evCalled(x, env)
 		case "visited":
 			// visited(loopvar, key): key was already produced by the map iteration of that loop
@@ -736,6 +743,11 @@ func (c *FnCtx) evCall(x *eCall, env *evalEnv) *Val {
 				return c.evSpecFn(sf, x, env)
 			}
 		}
+		if c.specs != nil {
+			if sf := c.specs.specFn["deps"][id.name]; sf != nil {
+				return c.evSpecFn(sf, x, env)
+			}
+		}
 		// package-level function of the current package
 		if env.pkg != nil {
 			if o, ok := env.pkg.Scope().Lookup(id.name).(*types.Func); ok {
@@ -761,11 +773,16 @@ func (c *FnCtx) evCall(x *eCall, env *evalEnv) *Val {
 		}
 		// method call
 		recv := c.ev(sel.x, env)
-		obj, _, _ := types.LookupFieldOrMethod(recv.T, true, env.pkg, sel.name)
+		obj, idx, _ := types.LookupFieldOrMethod(recv.T, true, env.pkg, sel.name)
 		if obj == nil {
 			obj = lookupMethodAnyPkg(recv.T, sel.name)
+			idx = nil
 		}
 		if m, ok := obj.(*types.Func); ok {
+			if len(idx) > 1 {
+				// promoted through embedded fields: the receiver is the embedded field
+				recv = c.fieldOf(recv, idx[:len(idx)-1], env)
+			}
 			return c.evPureCall(m, recv, x.args, env)
 		}
 		c.efail("unknown method %s on %s", sel.name, recv.T)
@@ -836,6 +853,32 @@ func ifaceDeclaring(T types.Type, method string) types.Type {
 }
 
 func (c *FnCtx) evSpecFn(sf *specFunc, x *eCall, env *evalEnv) *Val {
+	if sf.body == nil {
+		// uninterpreted ghost function
+		var sorts []string
+		var ts []Term
+		if len(x.args) != len(sf.params) {
+			c.efail("spec function %s: arity", sf.name)
+		}
+		for i, p := range sf.params {
+			v := c.ev(x.args[i], env)
+			T := c.resolveType(p.typ, env.pkg)
+			sorts = append(sorts, c.sortOf(T))
+			switch {
+			case v.T == nil && v.S == "nil":
+				ts = append(ts, c.zero(T))
+			case v.T != nil && c.isIface(T) && !c.isIface(v.T):
+				ts = append(ts, c.box(v))
+			default:
+				ts = append(ts, v.S)
+			}
+		}
+		RT := c.resolveType(sf.result, env.pkg)
+		f := "ghost." + sym(sf.name)
+		c.declare(f, fmt.Sprintf("(declare-fun %s (%s) %s)", f, strings.Join(sorts, " "), c.sortOf(RT)))
+		r := c.mk(RT, app(f, ts...))
+		return r
+	}
 	if env.depth > 8 {
 		c.efail("spec function recursion too deep: %s", sf.name)
 	}
